@@ -2,6 +2,7 @@
 package c14
 
 import (
+	"errors"
 	"fmt"
 	"math"
 	"sort"
@@ -32,6 +33,11 @@ type layout struct {
 	Zones  int                 `json:"zones"`
 	Owners map[string][]uint32 `json:"owners"` // id -> tokens; id prefix "zN-" gives the zone
 	ZoneOf map[string]string   `json:"zone_of"`
+	// members flagged read-only (lookups by key and token ranges do not treat them differently), and
+	// members whose token list was written unsorted (an older or foreign writer on a store that does not
+	// normalise; the ring client sorts what it reads)
+	ReadOnly map[string]bool `json:"read_only,omitempty"`
+	Unsorted map[string]bool `json:"unsorted,omitempty"`
 }
 
 func (l layout) desc(now time.Time) *ring.Desc {
@@ -39,8 +45,16 @@ func (l layout) desc(now time.Time) *ring.Desc {
 	for id, toks := range l.Owners {
 		tk := append([]uint32(nil), toks...)
 		sort.Slice(tk, func(a, b int) bool { return tk[a] < tk[b] })
-		d.Ingesters[id] = ring.InstanceDesc{Id: id, Addr: id + ":1", Zone: l.ZoneOf[id], Tokens: tk, State: ring.ACTIVE,
+		if l.Unsorted[id] && len(tk) > 1 {
+			// rotate by one and swap the ends: never ascending
+			tk = append(tk[1:], tk[0])
+		}
+		in := ring.InstanceDesc{Id: id, Addr: id + ":1", Zone: l.ZoneOf[id], Tokens: tk, State: ring.ACTIVE,
 			Timestamp: now.Add(time.Hour).Unix(), RegisteredTimestamp: now.Add(-time.Hour).Unix()}
+		if l.ReadOnly[id] {
+			in.ReadOnly, in.ReadOnlyUpdatedTimestamp = true, now.Add(-time.Minute).Unix()
+		}
+		d.Ingesters[id] = in
 	}
 	return d
 }
@@ -179,6 +193,9 @@ func checkSubrings(r *fakekv.PushRing, l layout) error {
 		for _, perZone := range []int{1, 2} {
 			sub := r.ShuffleShard(tenant, perZone*l.Zones)
 			rs, err := sub.GetAllHealthy(ring.Reporting)
+			if errors.Is(err, ring.ErrEmptyRing) {
+				continue // every eligible member is read-only: the shard is empty
+			}
 			if err != nil {
 				return fmt.Errorf("sub-ring %s/%d: %v", tenant, perZone*l.Zones, err)
 			}
@@ -447,9 +464,12 @@ func TestInstanceRangesRapid(t *testing.T) {
 		nz := rapid.IntRange(1, 3).Draw(rt, "zones")
 		nInst := rapid.IntRange(nz, vx.Pick(12, 30)).Draw(rt, "instances")
 		maxTok := rapid.SampledFrom([]int{1, 2, 3, 8, 64}).Draw(rt, "maxTokens")
-		l := layout{Zones: nz, Owners: map[string][]uint32{}, ZoneOf: map[string]string{}}
+		l := layout{Zones: nz, Owners: map[string][]uint32{}, ZoneOf: map[string]string{}, ReadOnly: map[string]bool{}, Unsorted: map[string]bool{}}
 		used := map[uint32]bool{}
 		own := map[uint32]string{}
+		roKind := rapid.IntRange(0, 3).Draw(rt, "readOnlyKind") // 0,1: none; 2: some members; 3: every member of one zone
+		roZone := rapid.IntRange(0, nz-1).Draw(rt, "readOnlyZone")
+		someUnsorted := rapid.IntRange(0, 3).Draw(rt, "someUnsorted") == 0
 		for i := 0; i < nInst; i++ {
 			id := fmt.Sprintf("i%02d", i)
 			z := i % nz
@@ -457,6 +477,12 @@ func TestInstanceRangesRapid(t *testing.T) {
 				z = rapid.IntRange(0, nz-1).Draw(rt, "zone")
 			}
 			l.ZoneOf[id] = fmt.Sprintf("z%d", z)
+			if (roKind == 2 && rapid.IntRange(0, 2).Draw(rt, "ro") == 0) || (roKind == 3 && z == roZone) {
+				l.ReadOnly[id] = true
+			}
+			if someUnsorted && rapid.Bool().Draw(rt, "unsorted") {
+				l.Unsorted[id] = true
+			}
 			nt := rapid.IntRange(0, maxTok).Draw(rt, "nt")
 			if i < nz && nt == 0 {
 				nt = 1
@@ -470,6 +496,12 @@ func TestInstanceRangesRapid(t *testing.T) {
 					}
 				}
 			}
+		}
+		if len(l.ReadOnly) > 0 {
+			vx.Class("layouts_with_read_only_members", 1)
+		}
+		if len(l.Unsorted) > 0 {
+			vx.Class("layouts_with_unsorted_token_lists", 1)
 		}
 		r := newRing(nz)
 		defer r.Stop()
